@@ -118,6 +118,8 @@ type Action struct {
 	// ErrorSkipFirst (OffsetCommit): the code is reported for (and keeps the broker from applying) every partition entry
 	// of a topic except the first one: a refusal that concerns some partitions of a request only.
 	ErrorSkipFirst bool
+	// ErrorFirstOnly (CreateTopics): the code is reported for the first topic of the request only, the others are created
+	ErrorFirstOnly bool
 	Chunk          int // deliver the response in reads of at most Chunk bytes
 	Hold           <-chan struct{}
 	Mutate         func(body map[string]any) // last-minute change of the response body
